@@ -285,9 +285,9 @@ func (l *lemmas) cfgBeforePicks() lemmaResult {
 		// (1) initializeConfig stores a non-nil gb.cfg before anything that can create a connection
 		var firstStore ssa.Instruction
 		for _, a := range pl.ai.ByFn[ic] {
-			if a.Field == "gcpBalancer.cfg" && a.What == "store" && a.Instr.Block() == ic.Blocks[0] {
-				if _, isAl := a.Instr.(*ssa.Store).Val.(*ssa.Alloc); isAl {
-					firstStore = a.Instr
+			if a.Field == "gcpBalancer.cfg" && a.What == "store" && firstStore == nil {
+				if freshObject(a.Instr.(*ssa.Store).Val) {
+					firstStore = a.Instr // (that it precedes every creation is checked below, by dominance)
 				}
 			}
 		}
@@ -296,7 +296,7 @@ func (l *lemmas) cfgBeforePicks() lemmaResult {
 		}
 		for _, a := range pl.ai.ByFn[ic] {
 			if a.Field == "gcpBalancer.cfg" && a.What == "store" {
-				if _, isAl := a.Instr.(*ssa.Store).Val.(*ssa.Alloc); !isAl {
+				if !freshObject(a.Instr.(*ssa.Store).Val) {
 					return lemmaResult{false, "gb.cfg can be assigned a possibly nil value", p.ipos(a.Instr)}
 				}
 			}
@@ -789,12 +789,22 @@ func (l *lemmas) nilOriginOK(s panicSite, o Origin) (bool, string) {
 						continue
 					}
 					st := a.Instr.(*ssa.Store)
-					al, isAl := st.Val.(*ssa.Alloc)
-					if !isAl {
+					// the stored object: an allocation of this call, possibly one per branch (a composite literal on each)
+					os := origins(st.Val)
+					if len(os) == 0 {
 						fresh = false
+					}
+					for _, so := range os {
+						al, isAl := so.Val.(*ssa.Alloc)
+						if !isAl || so.Kind != "alloc" {
+							fresh = false
+							continue
+						}
+						objs = append(objs, al)
+					}
+					if !fresh {
 						continue
 					}
-					objs = append(objs, al)
 					if bl, ok := base.(ssa.Instruction); ok && dominatesInstr(st, bl) {
 						dom = true
 					}
@@ -986,15 +996,25 @@ func ensuredSection(fn *ssa.Function, r *ssa.Call, at ssa.Instruction) (bool, st
 			continue
 		}
 		bo, ok := iff.Cond.(*ssa.BinOp)
-		if !ok || bo.Op != token.EQL || !isNilConst(bo.Y) {
+		if !ok || (bo.Op != token.EQL && bo.Op != token.NEQ) {
 			continue
 		}
-		g, ok := bo.X.(*ssa.Call)
+		x, y := bo.X, bo.Y
+		if isNilConst(x) {
+			x, y = y, x
+		}
+		if !isNilConst(y) {
+			continue
+		}
+		g, ok := x.(*ssa.Call)
 		if !ok || calleeOf(&g.Call).Static != c.Static || kstr(g.Call.Args[0]) != a {
 			continue
 		}
 		// nil branch: stores fresh into A.<field> and jumps to the other successor
 		nb, join := b.Succs[0], b.Succs[1]
+		if bo.Op == token.NEQ {
+			nb, join = join, nb
+		}
 		if len(nb.Succs) != 1 || nb.Succs[0] != join || !join.Dominates(at.Block()) {
 			continue
 		}
@@ -1167,5 +1187,13 @@ func (l *lemmas) collectionNonNil(field string, idx int) lemmaResult {
 			return lemmaResult{false, "no map insertion into " + field + " found to justify non-nil elements", "-"}
 		}
 		return lemmaResult{true, fmt.Sprintf("all %d stores put a non-nil value there", n), "-"}
+	})
+}
+
+// freshObject: every origin of v is an allocation made in this call (a composite literal on each branch).
+func freshObject(v ssa.Value) bool {
+	return originsAll(v, func(o Origin) bool {
+		_, isAl := o.Val.(*ssa.Alloc)
+		return isAl && o.Kind == "alloc"
 	})
 }
